@@ -183,6 +183,41 @@ fn decimal_parts(x: f64) -> (&'static str, bool, Vec<u8>, i32) {
     ("fin", x.is_sign_negative(), ds, e.parse().unwrap())
 }
 
+/// The other shortest representation of an f64 that lies EXACTLY half-way between two decimals of the shortest
+/// length (both round-trip, both are equally close: Rust's `{:e}` and ryu pick different ones).  Exact decimal
+/// expansion of the f64 via `{:.800e}` (Rust formats exactly at any precision).
+fn alt_shortest(x: f64) -> Vec<J> {
+    let (cls, _, ds, e) = decimal_parts(x);
+    let mut out = vec![];
+    if cls != "fin" || x == 0.0 {
+        return out;
+    }
+    let k = ds.len();
+    let exact = format!("{:.800e}", x.abs());
+    let (m, e2) = exact.split_once('e').unwrap();
+    if e2.parse::<i32>().unwrap() != e {
+        return out;
+    }
+    let ex: Vec<u8> = m.bytes().filter(|b| b.is_ascii_digit()).map(|b| b - b'0').collect();
+    let last = ex.iter().rposition(|d| *d != 0).unwrap_or(0);
+    // exact value = (first k digits) 5 000...: a tie between `down` and `down + 1` at k digits
+    if last != k || ex[k] != 5 {
+        return out;
+    }
+    let down: u128 = ex[..k].iter().fold(0u128, |a, d| a * 10 + *d as u128);
+    let mine: u128 = ds.iter().fold(0u128, |a, d| a * 10 + *d as u128);
+    let other = if mine == down { down + 1 } else if mine == down + 1 { down } else { return out };
+    let os = other.to_string();
+    if os.len() != k || other % 10 == 0 {
+        return out;
+    }
+    let lit = format!("{}e{}", os, e - (k as i32 - 1));
+    if lit.parse::<f64>().map(|v| v.to_bits() == x.abs().to_bits()).unwrap_or(false) {
+        out.push(json!({"ds": os.bytes().map(|b| b - b'0').collect::<Vec<u8>>(), "e": e}));
+    }
+    out
+}
+
 fn chars(s: &str) -> Vec<String> {
     s.chars().map(|c| c.to_string()).collect()
 }
@@ -191,7 +226,7 @@ fn chars(s: &str) -> Vec<String> {
 fn event(o: &Obs, opts: &Opts) -> J {
     let (cls, neg, ds, e) = decimal_parts(o.x);
     let (rcls, rneg, rds, re) = if o.lex { decimal_parts(o.rb) } else { ("fin", false, vec![0], 0) };
-    json!({"cls": cls, "neg": neg, "ds": ds, "e": e,
+    json!({"cls": cls, "neg": neg, "ds": ds, "e": e, "alts": alt_shortest(o.x),
            "sep": chars(&opts.sep), "thr": opts.thr.min(1_000_000), "sig": opts.sig.min(1_000_000),
            "text": chars(&o.text), "panic": o.panic.is_some(),
            "lex": o.lex, "lexeq": o.lexeq, "rawok": o.raw_ok,
@@ -254,6 +289,8 @@ fn run(args: &[String]) -> i32 {
         if let (Some(t), Some(ev)) = (tr.as_mut(), ev) {
             let mut ev = ev.clone();
             ev["case"] = r["i"].clone();
+            ev["exact"] = r["exact"].clone();
+            ev["lit"] = r["lit"].clone();
             t.line(&ev);
         }
     }
